@@ -429,6 +429,118 @@ static Parsed classify(const bytes &f, const std::vector<Arg> &args)
     return P;
 }
 
+// ---------------------------------------------------------------- %p fields (round 3b)
+// The property fixes for %p only "0x followed by hex digits that parse back to the pointer": the NUMBER of
+// digits (leading zeros), hence the length of the field and the blanks a width adds, is left open.  The compared
+// result therefore carries every %p field in ONE canonical form - `0x` + exactly 16 lower-case digits, the
+// blanks recomputed for that length on the side where the real field has them - whatever digit count the code
+// under test chose; all other conversions stay byte-exact.  The field is found behaviourally: the engine is run
+// on the format cut off in front of the directive and behind its conversion character.
+struct PField
+{
+    size_t a = 0, b = 0;     // the field is out[a, b)
+    bool ok = false;         // [blanks]0x<k >= 1 hex digits whose value is the pointer>[blanks]
+    bool left = false;       // blanks behind the text
+    std::string core;        // "0x..." as the code printed it
+    std::string why;
+    int diri = -1;
+};
+static std::vector<PField> locate_p_fields(const bytes &f, const Parsed &P, const std::vector<Arg> &args, const bytes &out)
+{
+    std::vector<PField> v;
+    for (size_t di = 0; di < P.dirs.size(); di++)
+    {
+        const Dir &d = P.dirs[di];
+        if (d.conv != 'p' || d.argi < 0 || d.argi >= (int)args.size() || args[d.argi].kind != 'p')
+            continue;
+        PField pf;
+        pf.diri = (int)di;
+        bytes outs[2];
+        size_t cuts[2] = {d.start, d.pos + 1};
+        for (int q = 0; q < 2; q++)
+        {
+            bytes cut(f.begin(), f.begin() + (long)cuts[q]);
+            cut.push_back(0);
+            exact_buf cb(cut);
+            Sink sk;
+            Call c2{W_PRINTF, &sk, nullptr, 0};
+            dispatch(&c2, (const char *)cb.p, args, 0);
+            outs[q] = sk.out;
+        }
+        if (outs[0].size() > outs[1].size() || outs[1].size() > out.size() ||
+            !std::equal(outs[1].begin(), outs[1].end(), out.begin()))
+        {
+            pf.why = "the output of the format cut behind the directive is not a prefix of the whole output";
+            v.push_back(pf);
+            continue;
+        }
+        pf.a = outs[0].size();
+        pf.b = outs[1].size();
+        std::string field(out.begin() + (long)pf.a, out.begin() + (long)pf.b);
+        size_t x = 0, y = field.size();
+        while (x < y && field[x] == ' ') x++;
+        while (y > x && field[y - 1] == ' ') y--;
+        pf.left = y < field.size();
+        pf.core = field.substr(x, y - x);
+        bool okp = pf.core.size() > 2 && pf.core[0] == '0' && pf.core[1] == 'x' && !(x > 0 && y < field.size());
+        unsigned long long val = 0;
+        for (size_t q = 2; okp && q < pf.core.size(); q++)
+        {
+            int hvv = hexval(pf.core[q]);
+            if (hvv < 0 || (val >> 60)) okp = false; // not a hex digit / more than 64 significant bits
+            else val = val * 16 + (unsigned)hvv;
+        }
+        okp = okp && val == (unsigned long long)args[d.argi].v;
+        if (!okp) pf.why = "the %p field `" + field + "` is not [blanks]0x<hex digits that parse back to the pointer>[blanks]";
+        pf.ok = okp;
+        v.push_back(pf);
+    }
+    return v;
+}
+static std::string canon_p_field(const PField &pf, unsigned long long val)
+{
+    char tmp[40];
+    snprintf(tmp, sizeof tmp, "0x%016llx", val);
+    std::string core = tmp;
+    size_t w = pf.b - pf.a;
+    std::string blanks(w > core.size() ? w - core.size() : 0, ' ');
+    return pf.left ? core + blanks : blanks + core;
+}
+// the output with every well-formed %p field in canonical form; `map` turns a count of characters of the real
+// output (at a directive boundary) into the count of the canonical output
+struct Canon
+{
+    bytes out;
+    std::vector<PField> fields;
+    std::vector<long> delta; // per field: canonical length - real length
+    long map(long n) const
+    {
+        long m = n;
+        for (size_t i = 0; i < fields.size(); i++)
+            if (fields[i].ok && (long)fields[i].b <= n) m += delta[i];
+        return m;
+    }
+};
+static Canon canon_output(const bytes &f, const Parsed &P, const std::vector<Arg> &args, const bytes &out)
+{
+    Canon C;
+    C.out = out;
+    C.fields = locate_p_fields(f, P, args, out);
+    C.delta.assign(C.fields.size(), 0);
+    for (size_t i = C.fields.size(); i-- > 0;)
+    {
+        const PField &pf = C.fields[i];
+        if (!pf.ok) continue;
+        // overlapping fields cannot happen (cuts are increasing); keep the guard cheap
+        if (i + 1 < C.fields.size() && C.fields[i + 1].ok && C.fields[i + 1].a < pf.b) { C.fields[i].ok = false; continue; }
+        std::string cf = canon_p_field(pf, (unsigned long long)args[P.dirs[pf.diri].argi].v);
+        C.delta[i] = (long)cf.size() - (long)(pf.b - pf.a);
+        C.out.erase(C.out.begin() + (long)pf.a, C.out.begin() + (long)pf.b);
+        C.out.insert(C.out.begin() + (long)pf.a, cf.begin(), cf.end());
+    }
+    return C;
+}
+
 // ---------------------------------------------------------------- run
 static std::string former_finding_class(const Parsed &P, const std::vector<Arg> &args);
 static std::string res(long ret, const bytes &out) { return std::to_string(ret) + " " + hex(out); }
@@ -636,11 +748,26 @@ static void run_one(const std::vector<std::string> &w, out &o)
     if (ret != sink.calls)
         o.fail("return value " + std::to_string(ret) + " != " + std::to_string(sink.calls) + " characters emitted");
 
+    // round 3b: the compared result carries every %p field in canonical form (see locate_p_fields); `outc` is
+    // `out` itself when the format has no %p or the code prints 0x + 16 lower-case digits.  For the wrapper ops the
+    // real buffer is judged against the real engine output by the oracle; when that holds, the result shown is
+    // what the same wrapper semantics give on the canonical output (identical to the real buffer when outc == out).
+    Canon CN;
+    CN.out = out;
+    if (P.has_p && op != "pfmin") CN = canon_output(f, P, args, out);
+    const bytes &outc = CN.out;
+    long retc = ret + ((long)outc.size() - (long)out.size());
+    for (auto &pf : CN.fields)
+    {
+        if (!pf.ok && P.defined) o.fail(pf.why);
+        if (pf.ok && pf.core.size() != 18) o.tag("p-digits-not-16");
+    }
+
     if (op == "pf" || op == "pfmin") // pfmin: pf, kept apart for the driver (probes of C06-star-width-int-min)
-        o.result = res(ret, out);
+        o.result = res(retc, outc);
     else if (op == "pn")
     {
-        o.result = res(ret, out);
+        o.result = res(retc, outc);
         for (auto &d : P.dirs)
             if (d.conv == 'n' && d.argi >= 0 && d.argi < (int)args.size() && args[d.argi].kind == 'N')
             {
@@ -648,6 +775,7 @@ static void run_one(const std::vector<std::string> &w, out &o)
                 size_t sz = a.buf->n;
                 unsigned long long val = 0;
                 for (size_t q = 0; q < sz; q++) val |= (unsigned long long)a.buf->p[q] << (8 * q);
+                size_t result_at = o.result.size();
                 o.result += " n" + std::to_string(a.v) + ":" + std::to_string(sz) + ":" + std::to_string(val);
                 // ISO: "the number of characters written to the output stream so far by this call" =
                 // what the engine emits for the format cut off in front of this directive
@@ -662,6 +790,14 @@ static void run_one(const std::vector<std::string> &w, out &o)
                 if (sz < 8) expect &= (1ull << (8 * sz)) - 1;
                 if (val != expect)
                     o.fail("%n stored " + std::to_string(val) + ", " + std::to_string(sk.calls) + " characters were written so far");
+                else if (CN.map(sk.calls) != sk.calls)
+                {
+                    // %p fields in front of this %n: the count in the canonical output
+                    unsigned long long cv = (unsigned long long)CN.map(sk.calls);
+                    if (sz < 8) cv &= (1ull << (8 * sz)) - 1;
+                    o.result.resize(result_at);
+                    o.result += " n" + std::to_string(a.v) + ":" + std::to_string(sz) + ":" + std::to_string(cv);
+                }
                 o.tag(("n:" + (d.len.empty() ? std::string("int") : d.len)).c_str());
                 if (sk.calls > 255) o.tag("n-count>255");
             }
@@ -676,6 +812,12 @@ static void run_one(const std::vector<std::string> &w, out &o)
         expect.push_back(0);
         if (r2 != ret || b.vec() != expect)
             o.fail("vsprintf/sprintf differs from __printf + terminator");
+        else if (outc != out)
+        {
+            bytes ec = outc;
+            ec.push_back(0);
+            o.result = res(retc, ec);
+        }
     }
     else if (is_sn && sn_big)
     {
@@ -691,6 +833,12 @@ static void run_one(const std::vector<std::string> &w, out &o)
             o.fail("snprintf returns " + std::to_string(r2) + ", the whole output has " + std::to_string(ret) + " characters");
         else if (b.vec() != expect)
             o.fail("snprintf with a size larger than the output did not store the whole output and a terminator");
+        else if (outc != out)
+        {
+            bytes ec = outc;
+            ec.push_back(0);
+            o.result = res(retc, ec);
+        }
         o.tag("sn-huge-size");
     }
     else if (is_sn)
@@ -718,6 +866,17 @@ static void run_one(const std::vector<std::string> &w, out &o)
             o.fail("snprintf returns " + std::to_string(r2) + ", the whole output has " + std::to_string(ret) + " characters");
         else if (got != expect)
             o.fail("snprintf buffer is not the first size-1 characters of the output, a terminator, and untouched bytes behind");
+        else if (outc != out)
+        {
+            bytes ec(size, 0xA5);
+            if (size)
+            {
+                size_t n = std::min(size - 1, outc.size());
+                std::copy(outc.begin(), outc.begin() + (long)n, ec.begin());
+                ec[n] = 0;
+            }
+            o.result = res(retc, ec);
+        }
         if (size && out.size() + 1 > size) o.tag("sn-truncated");
         if (size && out.size() + 1 == size) o.tag("sn-exact-fit");
         if (!size) o.tag("sn-size0");
@@ -744,6 +903,11 @@ static void run_one(const std::vector<std::string> &w, out &o)
         bytes expect(out.begin(), out.begin() + (failed ? limit : (long)out.size()));
         if (r2 != (failed ? -1 : ret) || g_fd_out != expect)
             o.fail("vfdprintf differs from __printf / first error code");
+        else if (outc != out)
+        {
+            bool failedc = limit >= 0 && (long)outc.size() > limit;
+            o.result = res(failedc ? -1 : retc, bytes(outc.begin(), outc.begin() + (failedc ? limit : (long)outc.size())));
+        }
         if (failed) o.tag("fd-error");
     }
 
@@ -782,18 +946,27 @@ static void run_one(const std::vector<std::string> &w, out &o)
     if (P.defined && P.has_p)
     {
         // any format with %p (several directives, literal text): ISO leaves the
-        // rendering of a pointer to the implementation, igris documents "0x and
-        // 16 hexadecimal digits".  Expected text = glibc on the same format with
-        // every %p directive turned into %s of that rendering (made here with
-        // glibc's %016llx), flags and width kept.
+        // rendering of a pointer to the implementation, the property demands "0x
+        // followed by hex digits that parse back to the pointer" - ANY number
+        // k >= 1 of digits (round 3b; the earlier rounds demanded igris' 16).
+        // Expected text = glibc on the same format with every %p directive
+        // turned into %s of the rendering the code chose (taken from its own
+        // field after it was checked to be 0x + hex digits with the pointer's
+        // value: locate_p_fields), flags and width kept: width and `-` padding
+        // are computed by glibc on THAT length, and so is the return value.
         bytes f2 = fz;
         std::vector<Arg> a2 = gargs;
-        for (auto &d : P.dirs)
+        bool all_ok = true;
+        for (size_t di = 0; di < P.dirs.size(); di++)
+        {
+            const Dir &d = P.dirs[di];
             if (d.conv == 'p')
             {
+                const PField *pf = nullptr;
+                for (auto &x : CN.fields) if (x.diri == (int)di) pf = &x;
+                if (!pf || !pf->ok) { all_ok = false; continue; } // (already reported above)
                 f2[d.pos] = 's';
-                char tmp[40];
-                snprintf(tmp, sizeof tmp, "0x%016llx", (unsigned long long)a2[d.argi].v);
+                const char *tmp = pf->core.c_str();
                 Arg sa;
                 sa.kind = 's';
                 sa.s = bytes(tmp, tmp + strlen(tmp));
@@ -803,6 +976,9 @@ static void run_one(const std::vector<std::string> &w, out &o)
                 sa.buf = keep.back().get();
                 a2[d.argi] = sa;
             }
+        }
+        if (all_ok)
+        {
         exact_buf fb2(f2);
         Call g{W_GLIBC, nullptr, nullptr, 0};
         long er = dispatch(&g, (const char *)fb2.p, a2, 0);
@@ -816,8 +992,9 @@ static void run_one(const std::vector<std::string> &w, out &o)
             exp2.assign(gb.p, gb.p + er);
         }
         if (out != exp2 || ret != er)
-            o.fail("with %p as 0x + 16 hex digits ISO/glibc gives " + res(er, exp2));
+            o.fail("with %p as the 0x + hex digits the code chose ISO/glibc gives " + res(er, exp2));
         o.tag("p-multi-oracle");
+        }
     }
 }
 
